@@ -472,7 +472,7 @@ def make_declarative(model: Model):
             newstats.append(s)
         elif s.symbol in duplicated_symbols:
             if i not in duplicated_symbols[s.symbol]:
-                current[s.symbol] = s.expression
+                current[s.symbol] = s.expression.subs(current)
             else:
                 duplicated_symbols[s.symbol] = duplicated_symbols[s.symbol][1:]
                 if duplicated_symbols[s.symbol]:
